@@ -1,11 +1,13 @@
 CONSTANTS
- MaxCycles = 3
+ MaxCycles = 5
  MaxFaults = 2
  Stores = {"noop","etcd"}
  HasLfs = FALSE
  FixBreakOnError = TRUE
  FixSentinel = TRUE
  FixLfsFail = TRUE
+ DevStaleCache = FALSE
+ DevTruncAccepted = FALSE
 INIT Init
 NEXT Next
 INVARIANTS C33_CheckpointSafe C33_CleanCycleDelivers TypeOK
